@@ -262,7 +262,59 @@ fn dummy_game() -> Game {
     board[4] = spec::code(spec::KING, false);
     board[60] = spec::code(spec::KING, true);
     let p = Pos { board, white_to_move: true, castle: [false; 4], ep: 8 };
-    crate::h_attack::board_only_game(&p.board, true)
+    let mut game = crate::h_attack::board_only_game(&p.board, true);
+    // One move in the record: Kani 0.68 mis-models the drop of a CLONED EMPTY Vec (the second
+    // clone comes back with capacity 1 and a dangling pointer and `__rust_dealloc` complains);
+    // with a non-empty record the clones own real allocations.  One move never triggers the
+    // repetition filter (which needs five).
+    game.verif_set_move_stack(vec![abstract_move(4, true, false)]);
+    game
+}
+
+/// Same without any loop in the harness (the capture-search harnesses run with a small unwind
+/// bound, which also bounds the recursion depth CBMC explores).
+fn dummy_game_noloop() -> Game {
+    use crate::chess::verif_hooks::Parts;
+    let parts = Parts {
+        board: [None; 64],
+        past_scores: [0; 64],
+        past_hashes: [0; 64],
+        score: 0,
+        hash: 0,
+        current_player: Player::White,
+        king_positions: [position(4), position(60)],
+        endgame_king_table: false,
+        phase: crate::chess::GamePhase::Opening,
+    };
+    Game::verif_from_parts(parts, &[GameState::verif_from_bits(8)], vec![abstract_move(4, true, false)])
+}
+
+/// `push` stub of the capture-search harnesses.  CBMC cannot constant-fold the "is this move
+/// tactical" test on moves read back from the move buffer, so without help it explores the
+/// recursion to the unwinding bound at every move.  The abstract capture tree has no tactical
+/// move below depth 2; a push there is asserted unreachable, which also ends the path.
+pub fn stub_push_q(game: &mut Game, m: Move) {
+    unsafe {
+        if DEPTH >= 2 {
+            assert!(false, "[C09] the capture search plays a move that is not tactical");
+        }
+    }
+    stub_push(game, m)
+}
+
+/// `get_moves` stub of the capture-search harnesses: at most 3 moves per node.
+pub fn stub_get_moves_q(_game: &mut Game, moves: &mut ArrayVec<Move, 256>, _verify: bool) {
+    moves.clear();
+    let n = node_id();
+    unsafe {
+        let mut i = 0;
+        while i < 3 {
+            if i < NM[n] {
+                moves.push(abstract_move(i, TACT[n][i], white_at_depth()));
+            }
+            i += 1;
+        }
+    }
 }
 
 fn any_window() -> (i16, i16) {
@@ -428,7 +480,11 @@ fn quiescence_reference(n: usize, depth: usize) -> i16 {
 
 /// Real `quiescence_search` over an abstract capture tree: up to 3 moves at the root and at
 /// each child, each tactical or not (symbolic), grandchildren have moves but no tactical ones.
-pub fn quiescence_body(k0: usize, k1: usize, witness: bool) {
+pub fn quiescence_body(k0: usize, k1: usize, tact0: u8, tact1: u8, witness: bool) {
+    // The SHAPE of the capture tree is concrete per instance (which moves are tactical: bit i
+    // of tact0 for the root's move i, bit j of tact1 for every child's move j) -- with symbolic
+    // shapes the recursion structure itself becomes symbolic and symbolic execution does not
+    // finish; stand-pat values, window and distance from root are symbolic.
     reset();
     unsafe {
         NM[0] = k0;
@@ -436,14 +492,14 @@ pub fn quiescence_body(k0: usize, k1: usize, witness: bool) {
         let mut i = 0;
         while i < 3 {
             if i < k0 {
-                TACT[0][i] = kani::any();
+                TACT[0][i] = tact0 & (1 << i) != 0;
                 let c = 1 + i;
                 NM[c] = k1;
                 STAND[c] = any_value();
                 let mut j = 0;
                 while j < 3 {
                     if j < k1 {
-                        TACT[c][j] = kani::any();
+                        TACT[c][j] = tact1 & (1 << j) != 0;
                         let g = c * B + j + 1;
                         NM[g] = 1;
                         STAND[g] = any_value();
@@ -454,7 +510,7 @@ pub fn quiescence_body(k0: usize, k1: usize, witness: bool) {
             i += 1;
         }
     }
-    let mut game = dummy_game();
+    let mut game = dummy_game_noloop();
     let rd: u8 = kani::any();
     kani::assume(rd < 200);
     let (alpha, beta) = any_window();
@@ -479,7 +535,7 @@ pub fn no_moves_body(which: u8) {
         KING_EXISTS[0] = kani::any();
         IN_CHECK[0] = kani::any();
     }
-    let mut game = dummy_game();
+    let mut game = if which == 0 { dummy_game() } else { dummy_game_noloop() };
     let rd: u8 = kani::any();
     kani::assume(rd < 30);
     let (alpha, beta) = any_window();
@@ -532,9 +588,9 @@ macro_rules! s_instance {
 macro_rules! q_instance {
     ($name:ident, $body:ident, $($arg:expr),*) => {
         #[cfg_attr(kani, kani::proof)]
-        #[cfg_attr(kani, kani::unwind(9))]
-        #[cfg_attr(kani, kani::stub(crate::chess::Game::get_moves, stub_get_moves))]
-        #[cfg_attr(kani, kani::stub(crate::chess::Game::push, stub_push))]
+        #[cfg_attr(kani, kani::unwind(4))]
+        #[cfg_attr(kani, kani::stub(crate::chess::Game::get_moves, stub_get_moves_q))]
+        #[cfg_attr(kani, kani::stub(crate::chess::Game::push, stub_push_q))]
         #[cfg_attr(kani, kani::stub(crate::chess::Game::pop, stub_pop))]
         #[cfg_attr(kani, kani::stub(crate::chess::Game::hash, stub_hash))]
         #[cfg_attr(kani, kani::stub(crate::chess::Game::score, stub_score))]
@@ -584,11 +640,15 @@ d1_instance!(c09_depth1_k5, depth1_body, 5, false);
 d1_instance!(c10_depth1_no_moves, depth1_body, 0, false);
 d1_instance!(c09_depth1_witness, depth1_body, 3, true);
 
-q_instance!(c09_quiescence_1_1, quiescence_body, 1, 1, false);
-q_instance!(c09_quiescence_2_2, quiescence_body, 2, 2, false);
-q_instance!(c09_quiescence_3_2, quiescence_body, 3, 2, false);
-q_instance!(c09_quiescence_3_3, quiescence_body, 3, 3, false);
-q_instance!(c09_quiescence_witness, quiescence_body, 2, 2, true);
+q_instance!(c09_quiescence_1_1, quiescence_body, 1, 1, 0b1, 0b1, false);
+q_instance!(c09_quiescence_1_0_flat, quiescence_body, 1, 1, 0, 0, false);
+q_instance!(c09_quiescence_1_1_onelevel, quiescence_body, 1, 1, 0b1, 0, false);
+q_instance!(c09_quiescence_2_2_all, quiescence_body, 2, 2, 0b11, 0b11, false);
+q_instance!(c09_quiescence_2_2_mixed, quiescence_body, 2, 2, 0b10, 0b01, false);
+q_instance!(c09_quiescence_3_2_all, quiescence_body, 3, 2, 0b111, 0b11, false);
+q_instance!(c09_quiescence_3_2_mixed, quiescence_body, 3, 2, 0b101, 0b10, false);
+q_instance!(c09_quiescence_3_3_none, quiescence_body, 3, 3, 0, 0, false);
+q_instance!(c09_quiescence_witness, quiescence_body, 1, 1, 0b1, 0b1, true);
 q_instance!(c10_no_moves_quiescence, no_moves_body, 1);
 
 // ---------------------------------------------------------------- root: get_best_move_entry
@@ -808,11 +868,9 @@ pub const NO_LIMIT: u8 = 0;
 /// completed iterations (any score, any root move) or "stopped" from an arbitrary call on.
 /// `limit`: depth limit (NO_LIMIT = none); the table may hold an exact root entry of any depth
 /// left by earlier searches, and entries for the positions after it (for the printed line).
-pub fn driver_body(k: usize, limit: u8, with_root_entry: bool, witness: bool) {
+pub fn driver_body(k: usize, limit: u8, root_entry_depth: u8, witness: bool) {
     reset();
     let max_depth = if limit == NO_LIMIT { None } else { Some(limit) };
-    let e_depth: u8 = kani::any();
-    kani::assume(e_depth >= 1);
     unsafe {
         E_K = k;
         NM[0] = k;
@@ -831,13 +889,11 @@ pub fn driver_body(k: usize, limit: u8, with_root_entry: bool, witness: bool) {
     }
     let game = dummy_game();
     let mut table: TranspositionTable = HashMap::with_capacity_and_hasher(8, BuildNoHashHasher::default());
-    if with_root_entry && k > 0 {
-        // table invariant T: a cached move is one of the moves of the position it is cached for
-        let pv0: usize = kani::any();
-        kani::assume(pv0 < k);
-        let f: u8 = kani::any();
-        kani::assume(f <= 2);
-        table.insert(1000, sh::entry(kani::any(), Some(abstract_move(pv0, false, true)), e_depth, f));
+    if root_entry_depth > 0 && k > 0 {
+        // An exact root entry left by an earlier, deeper search (concrete per instance: a symbolic
+        // entry makes the real hashbrown insert intractable).  Table invariant T: the cached move
+        // is one of the root's moves.
+        table.insert(1000, sh::entry(17, Some(abstract_move(0, false, true)), root_entry_depth, sh::EXACT));
     }
     let flag = AtomicBool::new(true);
 
@@ -888,12 +944,13 @@ macro_rules! dr_instance {
     };
 }
 
-dr_instance!(c08_driver_limit1_fresh, 3, 1, false, false);
-dr_instance!(c08_driver_limit2_fresh, 3, 2, false, false);
-dr_instance!(c08_driver_limit3_fresh, 3, 3, false, false);
-dr_instance!(c08_driver_limit2_cached, 3, 2, true, false);
-dr_instance!(c08_driver_unlimited_fresh, 3, NO_LIMIT, false, false);
-dr_instance!(c08_driver_unlimited_cached, 3, NO_LIMIT, true, false);
-dr_instance!(c06_driver_no_moves, 0, 2, false, false);
-dr_instance!(c06_driver_single_reply, 1, 3, false, false);
-dr_instance!(c08_driver_witness, 3, 3, false, true);
+dr_instance!(c08_driver_limit1_fresh, 3, 1, 0, false);
+dr_instance!(c08_driver_limit2_fresh, 3, 2, 0, false);
+dr_instance!(c08_driver_limit3_fresh, 3, 3, 0, false);
+dr_instance!(c08_driver_limit2_cached4, 3, 2, 4, false);
+dr_instance!(c08_driver_limit3_cached2, 3, 3, 2, false);
+dr_instance!(c08_driver_unlimited_fresh, 3, NO_LIMIT, 0, false);
+dr_instance!(c08_driver_unlimited_cached254, 3, NO_LIMIT, 254, false);
+dr_instance!(c06_driver_no_moves, 0, 2, 0, false);
+dr_instance!(c06_driver_single_reply, 1, 3, 0, false);
+dr_instance!(c08_driver_witness, 3, 3, 0, true);
